@@ -216,6 +216,8 @@ func (p *Path) equals(t types.Type, x, y Value) *smt.Term {
 		return p.strEq(x, y.(Str))
 	case *Value:
 		return smt.ConstBool(x == y.(*Value))
+	case *RxVal:
+		return smt.ConstBool(x == y.(*RxVal))
 	case *Chan:
 		return smt.ConstBool(x == y.(*Chan))
 	case *Map:
@@ -505,6 +507,8 @@ func (p *Path) eqnil(t types.Type, x, y Value) bool {
 			return v == nil
 		case Iface:
 			return v.T == nil
+		case *RxVal:
+			return v == nil
 		}
 		panic(fmt.Sprintf("eqnil: %T", v))
 	}
